@@ -795,7 +795,27 @@ func (e *Emu) exec(r Req, out *Resp) (*httptest.ResponseRecorder, string) {
 		}
 		return rec, p
 	case "copy":
-		req := httptest.NewRequest("POST", base+esc(r.B)+"/o/"+esc(r.N)+"/rewriteTo/b/"+esc(r.B2)+"/o/"+esc(r.N2), nil)
+		var cbody io.Reader
+		if r.Up != nil {
+			// the optional destination resource of a rewrite request (the emulator ignores it)
+			res := map[string]interface{}{}
+			if r.Up.CType != "" {
+				res["contentType"] = r.Up.CType
+			}
+			if len(r.Up.Meta) > 0 {
+				m := map[string]string{}
+				for _, kv := range r.Up.Meta {
+					m[kv[0]] = kv[1]
+				}
+				res["metadata"] = m
+			}
+			js, _ := json.Marshal(res)
+			cbody = bytes.NewReader(js)
+		}
+		req := httptest.NewRequest("POST", base+esc(r.B)+"/o/"+esc(r.N)+"/rewriteTo/b/"+esc(r.B2)+"/o/"+esc(r.N2), cbody)
+		if cbody != nil {
+			req.Header.Set("Content-Type", "application/json")
+		}
 		rec, p := e.do(req)
 		if p == "" {
 			if rec.Code != 200 {
